@@ -502,6 +502,8 @@ Definition spec_zincr (s : sstate) (k : bytes) (v : value) (delta : float) : sst
       if other_type s k 5 then (s, out_err EKeyType) else
       let l := zmembers s k in
       let nv := norm_score (match zget l e with Some old => (old + delta)%float | None => delta end) in
+      (* a sum that is not a number (+inf + -inf) is refused by the storage layer *)
+      if is_nanf nv then (s, out_err (ESql (SqNotNull "rzset.score"))) else
       (sput_val s k (AVZSet (zput l e nv)), out_ok (VF nv))
   end.
 
@@ -546,8 +548,10 @@ Definition spec_zalg (inter : bool) (g : zagg) (s : sstate) (keys : list bytes) 
 
 Definition spec_zstore (inter : bool) (g : zagg) (s : sstate) (dest : bytes) (keys : list bytes)
   : sstate * out :=
-  if other_type s dest 5 then (s, out_err EKeyType) else
   let r := spec_zalg inter g s keys in
+  (* an aggregated score that is not a number is refused by the storage layer *)
+  if existsb (fun p => is_nanf (snd p)) r then (s, out_err (ESql SqScanNull)) else
+  if other_type s dest 5 then (s, out_err EKeyType) else
   (sput_val s dest (AVZSet r), out_ok (VI (zlen r))).
 
 (* How a specification result is compared with the faithful one *)
@@ -746,7 +750,10 @@ Definition spec_step (now : Z) (o : op) (s0 : sstate) : sstate * out :=
                   end
       end
   | ZIncr k v dl => spec_zincr s k v dl
-  | ZAlg inter g ks => (s, out_ok (VL (map zitem_rv (spec_zalg inter g s ks))))
+  | ZAlg inter g ks =>
+      let r := spec_zalg inter g s ks in
+      if existsb (fun p => is_nanf (snd p)) r then (s, out_err (ESql SqScanNull))
+      else (s, out_ok (VL (map zitem_rv r)))
   | ZStore inter g dst ks => spec_zstore inter g s dst ks
   | ZLen k => (s, out_ok (VI (zlen (zmembers s k))))
   | ZRangeRank k a b desc =>
